@@ -103,7 +103,7 @@ def obligations(tier):
                  [("n", 1, N), ("c", 1, N), ("c2", 1, N), ("M", 0, 8 * N * 5 + 40)] + OPT, bounds=f"n, chunks <= {N}, optimize on/off", **common))
     o.append(Obl("counts[store-existing-target]", _mk(lambda n, c, tc: SG.b_store_whole(n, c, tc, 1), ["n", "c", "tc"]),
                  [("n", 1, N), ("c", 1, N), ("tc", 1, N)] + OPT, bounds=f"n, chunks <= {N}", **common))
-    R = 6 if tier == "quick" else 9
+    R = 5 if tier == "quick" else 9
     o.append(Obl("counts[store-region]", _mk(SG.b_store_region, ["n", "c", "tn", "tc", "a"]),
                  [("n", 1, R), ("c", 1, R), ("tn", 1, R + 3), ("tc", 1, R), ("a", 0, R)] + OPT, bounds=f"source <= {R}, target <= {R+3}", **common))
     o.append(Obl("counts[to_zarr-path]", _mk(SG.b_store_path, ["n", "c"]), [("n", 1, N), ("c", 1, N)] + OPT, bounds=f"n <= {N}", **common))
